@@ -7,6 +7,7 @@ import (
 	"os/exec"
 	"path/filepath"
 	"strings"
+	"sync"
 
 	"github.com/akalin/gopar/par1"
 	"github.com/akalin/gopar/par2"
@@ -297,6 +298,58 @@ func (c *c17) Run(cs core.Case) core.Result {
 			r.Count("cli_runs", 1)
 		}
 		r.Key("%s|%s|f=%d|b=%d", p.Fmt, v.name, len(set.Files), set.Blocks)
+	}
+	// The same set created by several goroutines at once (separate directories):
+	// every output must equal the reference.
+	if p.Seed%3 == 0 {
+		const par = 4
+		type res struct {
+			files map[string]string
+			err   error
+		}
+		outs := make([]res, par)
+		var wg sync.WaitGroup
+		var dirs []string
+		for k := 0; k < par; k++ {
+			top := filepath.Join(root, fmt.Sprintf("conc%d", k))
+			setDir := filepath.Join(top, "the set")
+			set.Materialize(setDir)
+			dirs = append(dirs, setDir)
+		}
+		for k := 0; k < par; k++ {
+			wg.Add(1)
+			go func(k int) {
+				defer wg.Done()
+				var paths []string
+				for _, f := range set.Files {
+					paths = append(paths, filepath.Join(dirs[k], filepath.FromSlash(f.Name)))
+				}
+				idx := filepath.Join(dirs[k], "arch"+ext)
+				pi := core.Protect(func() {
+					if p.Fmt == "par2" {
+						outs[k].err = par2.Create(idx, paths, par2.CreateOptions{SliceByteCount: set.SliceSize, NumParityShards: set.Blocks, NumGoroutines: 1 + k})
+					} else {
+						outs[k].err = par1.Create(idx, paths, par1.CreateOptions{NumParityFiles: set.Blocks})
+					}
+				})
+				if pi != nil {
+					outs[k].err = fmt.Errorf("panic: %s", pi.Msg)
+				}
+			}(k)
+		}
+		wg.Wait()
+		for k := 0; k < par; k++ {
+			if outs[k].err != nil {
+				r.Violate("create-failed|concurrent", "concurrent Create #%d: %v", k, outs[k].err)
+				continue
+			}
+			got := createdFiles(dirs[k], inputs)
+			if d := scen.DiffSnap(ref, got); len(d) > 0 {
+				r.Violate("create-output-varies|concurrent-creates", "%s Create output differs from the reference when %d Creates of the same set run concurrently in one process: %v", p.Fmt, par, d)
+			}
+			r.Count("variant_runs", 1)
+			r.Key("%s|concurrent-create|%d", p.Fmt, k)
+		}
 	}
 	// An input list that mentions a file twice: whatever Create does with it, the
 	// result must not depend on how the repeat is spelled.
